@@ -308,49 +308,91 @@ def skeleton_probes(rng, n_random):
     return ps
 
 
-LINE_TAGS = ["set z = 1", "if true", "endif", "for i in [1]", "endfor"]
+LINE_TAGS = [("set", "set z = 1"), ("if", "if true"), ("endif", "endif"), ("for", "for i in [1]"), ("endfor", "endfor")]
+BRK = "\x00"   # a line break inside a tag (between open brackets); written as the source's line break + indentation
 
 
-def line_probe(rng, o, allow_comment=True):
-    """whole lines of text / tags / comments, none blank, well nested; as (line form, block form, has_comment)"""
+def bracket_tag(rng, sp, cp):
+    """a statement whose expression keeps a ( [ or { open across 1-3 line breaks ("line statements can span multiple
+    lines if there are open parentheses, braces or brackets", docs/templates.rst): nested brackets, strings holding
+    brackets / the prefixes / an escaped line break, a continuation line that starts with an operator spelled like a
+    prefix, tokens or a colon after the closing bracket.  '~' marks the places where a line break may stand."""
+    op = "%" if sp == "%" else "//" if cp == "//" else "+"
+    strs = ["'('", '"]"', "'{'", "'a\\nb'", "'%s x'" % (cp or "##"), "'%s if true'" % (sp or "#"), "')]'"]
+    st = lambda: rng.choice(strs)  # noqa: E731
+    lists = ["[1,~2, 3]", "(1,~2)", "[~1~]", "[1,~2,~3,~4]", "[(1,~2),~[3]]", f"[{st()},~{st()}]", f"({st()},~2,~{st()})",
+             "{'a': 1,~'b': 2}", f"[7~{op} 2,~5]", "[1,~2] + [3]", "([1,~2]~)"]
+    values = lists + ["{'a': [1,~(2,~3)],~'b': {'k':~4}}", "[1,~2]|length", "(1,~2)[0]", f"(7~{op} 2)", "(1,~2)|length + 3",
+                      f"({st()}~)", "((~(~1~)~))", "[1,~2][(0~)]"]
+    kind = rng.choice(["set", "set", "for", "for", "if"])
+    if kind == "set":
+        t = "set z = " + rng.choice(values)
+    elif kind == "for":
+        t = "for i in " + rng.choice(lists) + rng.choice(["", "", ":", " :"])
+    else:
+        t = "if " + rng.choice(["(true~and true)", "[1,~2]", "(1,~2)|length > 1", f"{st()} in [~{st()}]", "not (~false~)"]) \
+            + rng.choice(["", "", ":"])
+    marks = [i for i, ch in enumerate(t) if ch == "~"]
+    keep = set(rng.sample(marks, min(len(marks), rng.randrange(1, 4))))
+    out = []
+    for i, ch in enumerate(t):
+        if ch != "~":
+            out.append(ch)
+        elif i in keep:
+            out.append(BRK + rng.choice(["", "  ", "\t", "        "]))
+        else:
+            out.append(rng.choice(["", " "]))
+    return kind, "".join(out)
+
+
+def line_probe(rng, o, allow_comment=True, multiline=0.35):
+    """whole lines of text / tags / comments, none blank, well nested; tags may continue over line breaks inside open
+    brackets; as line form (line statements / comments where a prefix is configured) and block-tag form"""
+    sp, cp = o["line_statement_prefix"], o["line_comment_prefix"]
+    bs, be, cs, ce = o["block_start_string"], o["block_end_string"], o["comment_start_string"], o["comment_end_string"]
+    vs, ve = o["variable_start_string"], o["variable_end_string"]
     lines = []
     nl = rng.choice(["\n", "\n", "\r\n", "\r", None])  # one line break for the whole source, or (None) mixed
     for _ in range(rng.randrange(1, 7)):
         k = rng.choice(["text", "text", "tag", "tag", "comment"] if allow_comment else ["text", "tag", "tag"])
         ind = rng.choice(["", "  ", "\t"])
         if k == "text":
-            lines.append(("text", ind + rng.choice(["a", "b c", "é", "x  "])))
+            lines.append(("text", ind + rng.choice(["a", "b c", "é", "x  ", f"{vs} z {ve}", f"{vs} i {ve}."])))
         elif k == "tag":
-            lines.append(("tag", ind, rng.choice(LINE_TAGS)))
+            kind, t = bracket_tag(rng, sp, cp) if rng.random() < multiline else rng.choice(LINE_TAGS)
+            lines.append(("tag", ind, t, kind))
         else:
             lines.append(("comment", ind, rng.choice(["c", "note 1"])))
     stack, fixed = [], []
     for ln in lines:
-        if ln[0] == "tag" and ln[2] in ("if true", "for i in [1]"):
-            stack.append(ln[2])
+        if ln[0] == "tag" and ln[3] in ("if", "for"):
+            stack.append(ln[3])
             fixed.append(ln)
-        elif ln[0] == "tag" and ln[2] in ("endif", "endfor"):
-            if stack and ((stack[-1] == "if true") == (ln[2] == "endif")):
+        elif ln[0] == "tag" and ln[3] in ("endif", "endfor"):
+            if stack and "end" + stack[-1] == ln[3]:
                 stack.pop()
                 fixed.append(ln)
             else:
-                fixed.append(("tag", ln[1], "set z = 1"))
+                fixed.append(("tag", ln[1], "set z = 1", "set"))
         else:
             fixed.append(ln)
     for op in reversed(stack):
-        fixed.append(("tag", "", "endif" if op == "if true" else "endfor"))
-    sp, cp = o["line_statement_prefix"], o["line_comment_prefix"]
-    bs, be, cs, ce = o["block_start_string"], o["block_end_string"], o["comment_start_string"], o["comment_end_string"]
+        fixed.append(("tag", "", "end" + op, "end" + op))
 
-    ends = [nl if nl is not None else rng.choice(["\n", "\r\n", "\r"]) for _ in fixed]
+    def brk():
+        return nl if nl is not None else rng.choice(["\n", "\r\n", "\r"])
+
+    ends = [brk() for _ in fixed]
+    # the line breaks inside the tags: chosen once, the same in both forms
+    inner = [("".join(brk() if ch == BRK else ch for ch in l[2]) if l[0] == "tag" else None) for l in fixed]
 
     def form(line_syntax, plus=""):
         out = []
-        for l, e in zip(fixed, ends):
+        for l, e, t in zip(fixed, ends, inner):
             if l[0] == "text":
                 out.append(l[1] + e)
             elif l[0] == "tag":
-                out.append(l[1] + (sp + " " + l[2] if line_syntax and sp is not None else bs + " " + l[2] + " " + be) + e)
+                out.append(l[1] + (sp + " " + t if line_syntax and sp is not None else bs + " " + t + " " + be) + e)
             else:
                 out.append(l[1] + (cp + " " + l[2] if line_syntax and cp is not None else cs + " " + l[2] + " " + plus + ce) + e)
         return "".join(out)
@@ -358,7 +400,8 @@ def line_probe(rng, o, allow_comment=True):
     # where only one of the two prefixes is configured, the other kind of line stays in its tag form
     return {"line_source": form(True), "block_source": form(False), "block_source_plus": form(False, "+"),
             "has_line_comment": cp is not None and any(l[0] == "comment" for l in fixed),
-            "has_line_statement": sp is not None and any(l[0] == "tag" for l in fixed)}
+            "has_line_statement": sp is not None and any(l[0] == "tag" for l in fixed),
+            "multiline_statements": sum(1 for l in fixed if l[0] == "tag" and BRK in l[2])}
 
 
 def attach_probes(rng, scenarios, n_random, n_line):
